@@ -94,7 +94,11 @@ pub fn try_parse_partial_response<const N: usize>(
     };
 
     let version = {
-        let v = res.version.ok_or(Error::MissingResponseVersion)?;
+        let v = match res.version {
+            Some(v) => v,
+            // Not enough input to even have the version.
+            None => return Ok(None),
+        };
         match v {
             0 => Version::HTTP_10,
             1 => Version::HTTP_11,
